@@ -214,6 +214,10 @@ impl Emitter {
         let mut stack = vec![Emitter::Node(node)];
 
         while let Some(inst) = stack.pop() {
+            #[cfg(feature = "verif-hooks")]
+            if crate::verif::tick() {
+                break;
+            }
             match inst {
                 Emitter::NodeLoopFinish {
                     loop_instruction_index,
